@@ -25,15 +25,20 @@ func newWorkHeap(length int) *workHeap {
 }
 
 func (wh workHeap) AdjustPriorities() {
+	// consult every adjust function first, then re-establish the heap order once
+	changed := false
 	for _, workItem := range wh.items {
 		wi := workItem
 		if wi.adjustPriority != nil {
 			newPriority := wi.adjustPriority()
 			if newPriority != wi.priority {
 				wi.priority = newPriority
-				heap.Fix(&wh, wi.position)
+				changed = true
 			}
 		}
+	}
+	if changed {
+		heap.Init(&wh)
 	}
 }
 
